@@ -38,6 +38,7 @@ def run(tier, seed):
             pats = [bytes.fromhex("a301634f4b500327206745643235353139"), bytes.fromhex("a5010203262001"), b"\xef\xbb\xbf"] + srcdict.blobs()
             s.cred_id = s.cred_id[: (0, 1, 7)[(slot // 3) % 3]] + pats[(slot // 3) % len(pats)] + s.cred_id[:2]
         s.count = rng.choice([0, 1, 100])
+        s.flags = (0x45, 0x4D, 0x5D, 0x45)[slot % 4]          # not backup eligible / eligible, not backed up / eligible and backed up
         pd, reg = regsim.build(s)
         pol = regrun.policy_of(pd)
         il, ml = B.run_case(pol, reg, regrun.FORMS[slot % 3], "accept", f"register/{fmt}", scn=s)
@@ -70,6 +71,20 @@ def run(tier, seed):
             a = authsim.Assertion(cred, stored_id, cdj, ad, sig)
             apol = impl.AuthPolicy(a_s.challenge, a_s.rp_id, a_s.origin, stored_key, stored_count, False)
             il2, _ = A.run_case(apol, a, authrun.FORMS[step % 3], "accept", f"authenticate-after/{fmt}")
+            # if authentication has grown parameters named like fields of the registration result, an RP supplies back what registration reported: still this credential
+            from harness import srcdict as _sd
+            back = {pn: getattr(vr, pn) for pn, _ann in _sd.new_parameters().get("verify_authentication_response", []) if hasattr(vr, pn)}
+            if back and (slot + step) % 4 != 1:
+                for bits in ((0x05,) if not s.flags & 0x08 else (0x0D, 0x1D)):
+                    ad_b = authsim.authdata(a_s.rp_id, bits, a_s.count)
+                    a_b = authsim.Assertion(cred, stored_id, cdj, ad_b, cred.sign(ad_b + hashlib.sha256(cdj).digest()))
+                    kwb = dict(apol.kwargs(), **back)
+                    o_b = impl.outcome(lambda: webauthn.verify_authentication_response(credential=a_b.as_record(), **kwb), impl.pr_verified_auth)
+                    ref_b = impl.verify_auth(apol, a_b.as_record())
+                    chk.evals += 2
+                    if ref_b.startswith("OK") and not o_b.startswith("OK"):
+                        chk.violation(f"an assertion of the registered credential is refused once the RP supplies back what registration reported ({', '.join(back)})", f"supplied-back {fmt} {'+'.join(back)}",
+                                      {"entry": "verify_authentication_response", "supplied_back": {k: repr(v) for k, v in back.items()}, "flags": bits, "outcome": o_b, "without_them": ref_b})
             if il2.startswith("OK"):
                 stored_count = fw.rd_i(il2.split()[2])
                 if fw.rd_b(il2.split()[1]) != stored_id:
